@@ -306,7 +306,7 @@ PROPS = {
                         "networks are CIDR networks in canonical form (no host bits in the base address), contiguous masks"],
     },
     "C17": {
-        "proofs": ["ZlProofs.Props.C17", "ZlProofs.Props.Bodies", "ZlProofs.Props.C05"],  # C05: no lint writes the object or package-level state  # Bodies: run_similar (order independence of every translated rule)
+        "proofs": ["ZlProofs.Props.C17", "ZlProofs.Props.Bodies", "ZlProofs.Props.NamesTerms", "ZlProofs.Props.C05"],  # C05: no lint writes the object or package-level state  # Bodies: run_similar (order independence of every translated rule)
         "corr": ["names", "bodies"],
         "search": ["c17"],
         "obligations": [ob_loop_state],
@@ -316,7 +316,7 @@ PROPS = {
         "partial": "that each rule body is the scan its class says is established by classification + permutation search, not by translating the body",
     },
     "C20": {
-        "proofs": ["ZlProofs.Props.C20", "ZlProofs.Props.C05", "ZlProofs.Props.Bodies", "ZlProofs.Props.C17"],  # C17: two copies of a rule agree on a list only if each is blind to its order  # C05: two rules can only be compared on "the same content" if each is a function of the object (no memory between calls); Bodies: twin_agrees, dsa_twins, san_ian_twins on the regenerated terms
+        "proofs": ["ZlProofs.Props.C20", "ZlProofs.Props.C05", "ZlProofs.Props.Bodies", "ZlProofs.Props.NamesTerms", "ZlProofs.Props.C17"],  # C17: two copies of a rule agree on a list only if each is blind to its order  # C05: two rules can only be compared on "the same content" if each is a function of the object (no memory between calls); Bodies: twin_agrees, dsa_twins, san_ian_twins on the regenerated terms
         "corr": ["names", "thresholds", "bodies"],
         "obligations": [ob_loop_state],
         "search": ["c20", "c05"],  # c05: histories, incl. a re-used read buffer — a twin that remembers an earlier answer contradicts its mirror image
